@@ -8,21 +8,85 @@ import (
 
 // AsyncEventBroker maintains a list of listeners interested in a specific type
 // of event.  Events are sent in parallel to all listeners, and no result is
-// returned.
+// returned.  Each named listener receives its events one at a time, in the
+// order they were emitted.
 type AsyncEventBroker[E any] struct {
 	sync.RWMutex
 	listenerNames []string  // Ordered listener names.
 	listenerFuncs []func(E) // Ordered listener functions.
+
+	seq     *asyncSequencer // Orders calls per listener name; shared between a Host's brokers.
+	seqOnce sync.Once       // Creates a private sequencer for a broker used on its own.
 }
 
-// Emit sends the provided event to each registered listener in parallel.
+// Emit queues the provided event for each registered listener.  Listeners run in parallel
+// with each other and with the caller, but a listener is not called with the next event
+// until its previous call has returned.
 func (eb *AsyncEventBroker[E]) Emit(event *E) {
 	eb.RLock()
 	defer eb.RUnlock()
 
-	for _, l := range eb.listenerFuncs {
+	seq := eb.sequencer()
+	for i, l := range eb.listenerFuncs {
 		// Events are copied to minimize the risk of mutation.
-		go l(*event)
+		l, ev := l, *event
+		seq.enqueue(eb.listenerNames[i], func() { l(ev) })
+	}
+}
+
+// sequencer returns the shared sequencer, or creates a private one on first use.
+func (eb *AsyncEventBroker[E]) sequencer() *asyncSequencer {
+	eb.seqOnce.Do(func() {
+		if eb.seq == nil {
+			eb.seq = &asyncSequencer{}
+		}
+	})
+	return eb.seq
+}
+
+// asyncSequencer runs the calls queued under one name strictly one after another, in queue
+// order, on a goroutine of their own; calls under different names run in parallel.
+type asyncSequencer struct {
+	mu     sync.Mutex
+	queues map[string]*asyncQueue
+}
+
+type asyncQueue struct {
+	calls   []func()
+	running bool
+}
+
+func (s *asyncSequencer) enqueue(name string, call func()) {
+	s.mu.Lock()
+	defer s.mu.Unlock()
+	if s.queues == nil {
+		s.queues = make(map[string]*asyncQueue)
+	}
+	q := s.queues[name]
+	if q == nil {
+		q = &asyncQueue{}
+		s.queues[name] = q
+	}
+	q.calls = append(q.calls, call)
+	if !q.running {
+		q.running = true
+		go s.drain(q)
+	}
+}
+
+func (s *asyncSequencer) drain(q *asyncQueue) {
+	for {
+		s.mu.Lock()
+		if len(q.calls) == 0 {
+			q.running = false
+			s.mu.Unlock()
+			return
+		}
+		call := q.calls[0]
+		q.calls[0] = nil
+		q.calls = q.calls[1:]
+		s.mu.Unlock()
+		call()
 	}
 }
 
